@@ -1,7 +1,7 @@
-// Run from the worktree root:
+// Copy this directory to <tree>/c19demo/<name>/ and run from the tree root:
 //
 //	export PATH=/opt/veriftools/go1.26.8/bin:$PATH GOTOOLCHAIN=local GOFLAGS=-mod=mod GOPROXY=off GOSUMDB=off
-//	go test ./AUDIT/demo/emu_read_16_dwords/ -count=1 -v
+//	go test ./c19demo/emu_read_16_dwords/ -count=1 -v
 //
 // Property C07: a value written to a register operand is read back unchanged at
 // the same width (widths 1-16 dwords); emulation and timing register stores
